@@ -37,6 +37,7 @@ let handle (toks : string list) : string =
             | Some clause -> "chk " ^ (string_of_clause clause)
             | None -> if model <> impl then "diff tumbling_pt_trace model=" ^ model else "ok nt")
        | _ -> "bad line")
+  | "Q" :: rest -> Winsql.handle_q rest
   | _ -> "bad line"
 
 let () = Registry.register "C01" handle
